@@ -357,6 +357,9 @@ class Check:
     def finish(self):
         os.makedirs(EVID, exist_ok=True)
         os.makedirs(REPLAYS, exist_ok=True)
+        for f in os.listdir(REPLAYS):
+            if f.startswith(self.prop + "-"):
+                os.remove(os.path.join(REPLAYS, f))
         lines, nviol = [], 0
         known = [k for k in self.known.get("findings", []) if k["property"] == self.prop]
         reported_known = set()
@@ -370,7 +373,7 @@ class Check:
             else:
                 unknown.append(f)
         # a broken proof/tie that is explained by a known finding is not re-reported; any other is.
-        broken = [b for b in self.broken if not b.get("explained_by") in reported_known or not b.get("explained_by")]
+        broken = list(self.broken)
         if unknown:
             byk = {}
             for f in unknown:
